@@ -105,6 +105,9 @@ class Evaluator:
                         return UNKNOWN
                     parts.append(str(x))
             return ''.join(parts)
+        if isinstance(e, ast.UnaryOp) and isinstance(e.op, ast.USub):
+            v = self.ev(e.operand)
+            return -v if isinstance(v, (int, float)) and not isinstance(v, bool) else UNKNOWN
         if isinstance(e, ast.UnaryOp) and isinstance(e.op, ast.Not):
             v = self.truth(self.ev(e.operand))
             return UNKNOWN if v is UNKNOWN else (not v)
@@ -158,7 +161,7 @@ class Evaluator:
             idx = self.ev(e.slice)
             if isinstance(base, Abstract) and isinstance(idx, int):
                 # entries are ordered: addrange first, then patch/removerange
-                if 0 <= idx < len(base.tag):
+                if -len(base.tag) <= idx < len(base.tag):
                     return AbstractEntry(base.letter_ops.get(base.tag[idx], UNKNOWN))
                 return UNKNOWN
             if isinstance(base, (tuple, str)) and isinstance(idx, int):
